@@ -68,7 +68,11 @@ Definition hdr_ok (h : hdr) : bool :=
 Definition enc_header (h : hdr) : str :=
   [ham84_enc (h_units h); ham84_enc (h_tens h); ham84_enc (h_s1 h); ham84_enc (h_s2 h); ham84_enc (h_s3 h);
    ham84_enc (h_c5 h); ham84_enc (h_c6 h); ham84_enc (h_c7 h)] ++ h_rest h.
-Definition h_pn (h : hdr) : Z := Z.of_N (h_tens h * 10 + h_units h).
+(* the page a header announces, as a number: tens*10 + units for decimal pages (the pages a reader can be asked for),
+   a code of their own (0x100 + the two hexadecimal digits) for pages with a hexadecimal digit *)
+Definition page_code (tens units : N) : Z :=
+  Z.of_N (if (9 <? tens) || (9 <? units) then N.lor 256 (N.lor (N.shiftl tens 4) units) else tens * 10 + units).
+Definition h_pn (h : hdr) : Z := page_code (h_tens h) (h_units h).
 Definition h_subtitle (h : hdr) : bool := 0 <? N.land (h_c5 h) 8.
 Definition h_serial (h : hdr) : bool := 0 <? N.land (h_c7 h) 1.
 Definition h_cs (h : hdr) : N := N.shiftr (h_c7 h) 1.
@@ -162,7 +166,7 @@ Definition hdr_full (p : str) : option (Z * bool * N) :=
   | Some (u, t) =>
     match ham84_dec (nth 7 p 0) with
     | None => None
-    | Some cb => Some (Z.of_N (t * 10 + u), 0 <? N.land cb 1, N.shiftr cb 1)
+    | Some cb => Some (page_code t u, 0 <? N.land cb 1, N.shiftr cb 1)
     end
   end.
 (* does a header carry the subtitle flag (C6)?  None: the control byte is uncorrectable *)
